@@ -228,6 +228,24 @@ def run_z3(part, typing, S, keymask):
                 return
         part.count("z3_solves")
         judge(part, dict(case, history="solve,find_answer,solve"), vs, S, keymask, r2, "z3")
+    # answer keys added between two solves: only the first key is registered for the first solve, the others afterwards
+    if sum(keymask) >= 2:
+        s3, vs3 = make_solver(typing)
+        post(s3, vs3, S)
+        keyed = [v for v, k in zip(vs3, keymask) if k]
+        hist = dict(case, history="solve(first key),add_answer_key(rest),solve")
+        with warnings.catch_warnings():
+            warnings.simplefilter("ignore")
+            try:
+                s3.add_answer_key(keyed[0])
+                s3.solve(backend="z3")
+                s3.add_answer_key(keyed[1:])
+                r3 = s3.solve(backend="z3")
+            except Exception as e:
+                part.violation("z3:solve-after-more-keys-raises-" + type(e).__name__, hist, {"exception": repr(e)[:200]})
+                return
+        part.count("z3_solves", 2)
+        judge(part, hist, vs3, S, keymask, r3, "z3")
 
 
 # ---- text-protocol routes -----------------------------------------------------------
